@@ -133,6 +133,15 @@ func genOutCase(t *rapid.T, forceSigned bool) OutCase {
 			sp.Enc = h.KeyCfg{Mode: "tls", Field: h.CertRef{Key: "E1", Window: "wide"}}
 		}
 	}
+	// options that govern INBOUND processing only: what the service provider sends, and the certificate it reports
+	// and signs with, are the same whatever they are set to
+	sp.ValidateEncCert = rapid.Bool().Draw(t, "validateEncCert")
+	sp.Skip = rapid.IntRange(0, 3).Draw(t, "skipSigValidation") == 0
+	sp.AllowMissing = rapid.IntRange(0, 3).Draw(t, "allowMissingAttributes") == 0
+	sp.MaxSize = rapid.SampledFrom([]int64{0, 0, 1, 4096}).Draw(t, "maxDecompressed")
+	if rapid.IntRange(0, 5).Draw(t, "emptyIdPStore") == 0 {
+		sp.Store = nil
+	}
 	signer, hasKey := expectedSigner(sp)
 	sp.SignRequests = rapid.Bool().Draw(t, "signRequests")
 	if hasKey {
